@@ -861,6 +861,98 @@ pub fn build_expansion(glyphs: &[u16], k: u16, lookups: u8, variant: u64) -> Vec
     t
 }
 
+/// GSUB: DFLT/latn -> `ccmp`, `liga` -> lookup 0; lookups 0..depth are contextual (format 3) on
+/// `glyph`, each with `records` lookup records naming the next lookup; lookup `depth` is a
+/// SingleSubst (delta 0 or +1 -1 alternating, by variant).
+pub fn build_context_fanout(glyph: u16, records: u16, depth: u8, variant: u64) -> Vec<u8> {
+    let p16 = |v: &mut Vec<u8>, x: u16| v.extend_from_slice(&x.to_be_bytes());
+    let depth = usize::from(depth.max(1));
+    let chain = variant % 2 == 1;
+    let mut t = Vec::new();
+    p16(&mut t, 1);
+    p16(&mut t, 0);
+    p16(&mut t, 10);
+    let script_list_len = 2 + 2 * 6 + 2 * 14;
+    p16(&mut t, (10 + script_list_len) as u16);
+    let feature_list_len = 2 + 2 * 6 + 2 * 6;
+    p16(&mut t, (10 + script_list_len + feature_list_len) as u16);
+    p16(&mut t, 2);
+    t.extend_from_slice(b"DFLT");
+    p16(&mut t, 14);
+    t.extend_from_slice(b"latn");
+    p16(&mut t, 28);
+    for _ in 0..2 {
+        p16(&mut t, 4);
+        p16(&mut t, 0);
+        p16(&mut t, 0);
+        p16(&mut t, 0xFFFF);
+        p16(&mut t, 2);
+        p16(&mut t, 0);
+        p16(&mut t, 1);
+    }
+    p16(&mut t, 2);
+    t.extend_from_slice(b"ccmp");
+    p16(&mut t, 14);
+    t.extend_from_slice(b"liga");
+    p16(&mut t, 20);
+    for _ in 0..2 {
+        p16(&mut t, 0);
+        p16(&mut t, 1);
+        p16(&mut t, 0);
+    }
+    let ll = t.len();
+    let nl = depth + 1;
+    p16(&mut t, nl as u16);
+    for _ in 0..nl {
+        p16(&mut t, 0);
+    }
+    for i in 0..nl {
+        let at = t.len();
+        let v = ((at - ll) as u16).to_be_bytes();
+        t[ll + 2 + 2 * i..ll + 4 + 2 * i].copy_from_slice(&v);
+        if i < depth {
+            p16(&mut t, if chain { 6 } else { 5 });
+            p16(&mut t, 0);
+            p16(&mut t, 1);
+            p16(&mut t, 8);
+            // format 3: one input glyph
+            let head = if chain { 2 + 2 + 2 + 2 + 2 + 2 } else { 2 + 2 + 2 + 2 };
+            let cov_at = head + 4 * usize::from(records);
+            p16(&mut t, 3);
+            if chain {
+                p16(&mut t, 0); // backtrack count
+                p16(&mut t, 1); // input count
+                p16(&mut t, cov_at as u16);
+                p16(&mut t, 0); // lookahead count
+                p16(&mut t, records);
+            } else {
+                p16(&mut t, 1); // glyph count
+                p16(&mut t, records);
+                p16(&mut t, cov_at as u16);
+            }
+            for _ in 0..records {
+                p16(&mut t, 0); // sequence index
+                p16(&mut t, (i + 1) as u16);
+            }
+            p16(&mut t, 1);
+            p16(&mut t, 1);
+            p16(&mut t, glyph);
+        } else {
+            p16(&mut t, 1);
+            p16(&mut t, 0);
+            p16(&mut t, 1);
+            p16(&mut t, 8);
+            p16(&mut t, 1);
+            p16(&mut t, 6);
+            p16(&mut t, 0); // delta 0: the glyph stays what the contexts match
+            p16(&mut t, 1);
+            p16(&mut t, 1);
+            p16(&mut t, glyph);
+        }
+    }
+    t
+}
+
 fn num_glyphs(disk: &Disk) -> Result<u16, String> {
     disk.tables
         .get(&tag_from_str("maxp"))
@@ -1039,6 +1131,17 @@ pub fn apply(disk: &mut Disk, s: &Surgery) -> Result<(), String> {
             }
             disk.tables
                 .insert(tag_from_str("GSUB"), Rc::new(build_expansion(&gs, k, lookups, *variant)));
+            Ok(())
+        }
+        Surgery::InstallContextFanout { glyph, records, depth, variant } => {
+            let n = num_glyphs(disk)?;
+            let depth = (*depth).clamp(1, 6);
+            let records = (*records).min(3000);
+            if *glyph >= n || 100 + usize::from(depth) * (40 + 4 * usize::from(records)) > 60000 {
+                return Err("surgery: context fan-out table does not fit".into());
+            }
+            disk.tables
+                .insert(tag_from_str("GSUB"), Rc::new(build_context_fanout(*glyph, records, depth, *variant)));
             Ok(())
         }
         Surgery::CompactHmtx { num_h_metrics } => {
